@@ -63,3 +63,44 @@ Proof.
   ka.
 Qed.
 
+
+(* ---- Appendix B in a shape convenient for inversion (Proofs/PepAccept.v), over the regenerated classes; inclusion decided by ka ---- *)
+Definition pi_num_r : regex' := r_dot pep440_cls_digit (r_str pep440_cls_digit).
+Definition pi_optnum_r : regex' := r_pls r_one pi_num_r.
+Definition pi_optsep_r : regex' := r_pls r_one pep440_cls_sep.
+Definition w2 (a b : regex') : regex' := r_dot a b.
+Definition w3 (a b c : regex') : regex' := r_dot a (r_dot b c).
+Definition w4 (a b c d : regex') : regex' := r_dot a (r_dot b (r_dot c d)).
+Definition w5 (a b c d e : regex') : regex' := r_dot a (r_dot b (r_dot c (r_dot d e))).
+Definition w7 (a b c d e f g : regex') : regex' := r_dot a (r_dot b (r_dot c (r_dot d (r_dot e (r_dot f g))))).
+Definition W_alpha := w5 pep440_cls_ci_a pep440_cls_ci_l pep440_cls_ci_p pep440_cls_ci_h pep440_cls_ci_a.
+Definition W_beta := w4 pep440_cls_ci_b pep440_cls_ci_e pep440_cls_ci_t pep440_cls_ci_a.
+Definition W_preview := w7 pep440_cls_ci_p pep440_cls_ci_r pep440_cls_ci_e pep440_cls_ci_v pep440_cls_ci_i pep440_cls_ci_e pep440_cls_ci_w.
+Definition W_pre := w3 pep440_cls_ci_p pep440_cls_ci_r pep440_cls_ci_e.
+Definition W_rc := w2 pep440_cls_ci_r pep440_cls_ci_c.
+Definition W_post := w4 pep440_cls_ci_p pep440_cls_ci_o pep440_cls_ci_s pep440_cls_ci_t.
+Definition W_rev := w3 pep440_cls_ci_r pep440_cls_ci_e pep440_cls_ci_v.
+Definition W_dev := w3 pep440_cls_ci_d pep440_cls_ci_e pep440_cls_ci_v.
+Definition pi_prelabel_r : regex' :=
+  r_pls W_alpha (r_pls pep440_cls_ci_a (r_pls W_beta (r_pls pep440_cls_ci_b (r_pls W_preview (r_pls W_pre (r_pls pep440_cls_ci_c W_rc)))))).
+Definition pi_postlabel_r : regex' := r_pls W_post (r_pls W_rev pep440_cls_ci_r).
+Definition pi_pre_r : regex' := r_dot pi_optsep_r (r_dot pi_prelabel_r (r_dot pi_optsep_r pi_optnum_r)).
+Definition pi_post_r : regex' := r_pls (r_dot pep440_cls_dash pi_num_r) (r_dot pi_optsep_r (r_dot pi_postlabel_r (r_dot pi_optsep_r pi_optnum_r))).
+Definition pi_dev_r : regex' := r_dot pi_optsep_r (r_dot W_dev (r_dot pi_optsep_r pi_optnum_r)).
+Definition pi_seg_r : regex' := r_dot pep440_cls_alnum (r_str pep440_cls_alnum).
+Definition pi_local_r : regex' := r_dot pep440_cls_plus (r_dot pi_seg_r (r_str (r_dot pep440_cls_sep pi_seg_r))).
+Definition pp_in_r : regex' :=
+  r_dot (r_pls r_one pep440_cls_ci_v)
+  (r_dot (r_pls r_one (r_dot pi_num_r pep440_cls_bang))
+  (r_dot pi_num_r (r_dot (r_str (r_dot pep440_cls_dot pi_num_r))
+  (r_dot (r_pls r_one pi_pre_r) (r_dot (r_pls r_one pi_post_r) (r_dot (r_pls r_one pi_dev_r) (r_pls r_one pi_local_r))))))).
+
+Lemma pp_in_ka : (pep440_spec : regex') ≦ pp_in_r.
+Proof.
+  unfold pp_in_r, pi_local_r, pi_seg_r, pi_dev_r, pi_post_r, pi_pre_r, pi_postlabel_r, pi_prelabel_r, W_dev, W_rev, W_post, W_rc, W_pre, W_preview, W_beta, W_alpha,
+         w7, w5, w4, w3, w2, pi_optsep_r, pi_optnum_r, pi_num_r,
+         pep440_cls_digit, pep440_cls_alnum, pep440_cls_dot, pep440_cls_plus, pep440_cls_bang, pep440_cls_sep, pep440_cls_dash,
+         pep440_cls_ci_a, pep440_cls_ci_b, pep440_cls_ci_c, pep440_cls_ci_d, pep440_cls_ci_e, pep440_cls_ci_h, pep440_cls_ci_i, pep440_cls_ci_l,
+         pep440_cls_ci_o, pep440_cls_ci_p, pep440_cls_ci_r, pep440_cls_ci_s, pep440_cls_ci_t, pep440_cls_ci_v, pep440_cls_ci_w, pep440_spec.
+  ka.
+Qed.
